@@ -5,7 +5,7 @@ from typing import Any
 
 import tinydb
 
-from .ldm_constants import OPERATOR_MAPPING
+from .ldm_constants import DATA_OBJECT_FIELD_NAME, OPERATOR_MAPPING
 from .database import DataBase
 from .ldm_classes import Filter, FilterStatement, RequestDataObjectsReq
 
@@ -94,7 +94,17 @@ class TinyDB(DataBase):
         """
         compare_function = OPERATOR_MAPPING.get(operator)
         if compare_function is not None:
-            return compare_function(query_with_attribute, ref_value)
+            if operator in ("like", "notlike"):
+                return compare_function(query_with_attribute, ref_value)
+
+            def _compare(value: Any) -> bool:
+                # A stored value that cannot be compared with the reference value does not match.
+                try:
+                    return bool(compare_function(value, ref_value))
+                except TypeError:
+                    return False
+
+            return query_with_attribute.test(_compare)
 
         raise ValueError(
             "Operator not supported according to ETSI TS 102 894-2 V2.2.1 (2023-10)"
@@ -156,8 +166,10 @@ class TinyDB(DataBase):
             raise ValueError(
                 f"Unsupported logical operator: {logical_operator}")
 
+        # Filter attributes are paths inside the message, which is stored under the data object field
+        # (same resolution as in DictionaryDataBase).
         attribute_query = self._create_query_from_filter_statement(
-            query, str(node.attribute)
+            query, DATA_OBJECT_FIELD_NAME + "." + str(node.attribute)
         )
         return self.create_query_search(
             attribute_query, str(node.operator), node.ref_value
